@@ -419,7 +419,13 @@ def table_index_sites(ctx, run, rule, cone, floor=None):
         if s['ok']:
             run.proved(rule, p, desc, s['wit'], s['loc'])
         else:
-            run.violation(rule, p, desc, 'index into a fixed-size table is not bounded by its length: ' + s['wit'] + ' (panics once the quantity grows past the table)', s['loc'])
+            import report as _rp
+            base_fns = _rp.baseline_functions()
+            if not _rp.is_baseline_fn(p):
+                run.undecided(rule, p, desc, 'index into a fixed-size table in a function that did not exist on the pinned tree: ' + s['wit'] +
+                              '; what its callers pass (struct fields, parameters) is not bounded here: not decided', s['loc'])
+            else:
+                run.violation(rule, p, desc, 'index into a fixed-size table is not bounded by its length: ' + s['wit'] + ' (panics once the quantity grows past the table)', s['loc'])
     if floor is not None:
         run.floor(rule, 'fixed-size table index sites', n, floor)
     return n
